@@ -187,7 +187,7 @@ void run_bounded(Choices& c, Report& r, bool quiescence)
     {
       uint32_t n = draw_size(c, cap, std::min<uint64_t>(cap + 2, std::numeric_limits<T>::max()), r);
       if (sizes.size() < 300) sizes += std::to_string(n) + " ";
-      int consecutive_refusals = 0;
+      int consecutive_refusals = 0, idle_refusals = 0;
       std::byte* p = nullptr;
       while (E().error.empty())
       {
@@ -200,7 +200,10 @@ void run_bounded(Choices& c, Report& r, bool quiescence)
         // pending (uncommitted) records must become visible before we wait, as quill always commits
         if (batch_left) { q.commit_write(); for (auto& u : m.uncommitted) m.fifo.push_back(u); m.uncommitted.clear(); batch_left = 0; }
         bool nothing_left_to_release = m.fifo.empty() && consumer_idle_committed;
-        if (nothing_left_to_release && consecutive_refusals >= 5)
+        // only refusals while the consumer has nothing left to release count (a stale load of the reader position is
+        // legal at most three times in a row; refusals before the consumer caught up say nothing)
+        if (nothing_left_to_release) ++idle_refusals; else idle_refusals = 0;
+        if (nothing_left_to_release && idle_refusals >= 5)
         {
           // every committed byte was consumed and committed by the consumer, yet the request is still
           // refused: the unpublished-reader-remainder stall (property C09, not C01)
@@ -208,7 +211,7 @@ void run_bounded(Choices& c, Report& r, bool quiescence)
           r.label("stalled_on_unpublished_remainder");
           if (g_prop == "C09" && !g_excl_f1)
           {
-            E().fail("C09: producer refused " + std::to_string(consecutive_refusals) + " times for " + std::to_string(n) +
+            E().fail("C09: producer refused " + std::to_string(idle_refusals) + " times for " + std::to_string(n) +
                      " B <= capacity " + std::to_string(cap) + " while the queue is empty and the consumer has committed everything it read");
             return;
           }
@@ -468,7 +471,7 @@ void run_unbounded(Choices& c, Report& r, bool quiescence)
       }
       if (n < 1) n = 1;
       if (opslog.size() < 400) opslog += std::to_string(n) + " ";
-      int consecutive_refusals = 0;
+      int consecutive_refusals = 0, idle_refusals = 0;
       std::byte* p = nullptr;
       bool skip = false;
       while (E().error.empty())
@@ -527,13 +530,16 @@ void run_unbounded(Choices& c, Report& r, bool quiescence)
           break;
         }
         bool nothing_left_to_release = m.fifo.empty() && consumer_idle_committed;
-        if (nothing_left_to_release && consecutive_refusals >= 5)
+        // only refusals while the consumer has nothing left to release count (a stale load of the reader position is
+        // legal at most three times in a row; refusals before the consumer caught up say nothing)
+        if (nothing_left_to_release) ++idle_refusals; else idle_refusals = 0;
+        if (nothing_left_to_release && idle_refusals >= 5)
         {
           ++gave_up;
           r.label("stalled_on_unpublished_remainder");
           if (g_prop == "C09" && !g_excl_f1)
           {
-            E().fail("C09: producer refused " + std::to_string(consecutive_refusals) + " times for " + std::to_string(n) +
+            E().fail("C09: producer refused " + std::to_string(idle_refusals) + " times for " + std::to_string(n) +
                      " B <= node capacity " + std::to_string(pcap) + " (maximum reached) while the queue is empty and the consumer has committed everything it read");
             return;
           }
